@@ -53,6 +53,11 @@ fn main() {
         }
         i += 2;
     }
+    if let Some(v) = ctx.opts.get("hang_cpu_s").and_then(|v| v.parse().ok()) {
+        tzmon::core::set_hang_limit_s(v);
+    } else if let Some(v) = std::env::var("TZMON_HANG_CPU_S").ok().and_then(|v| v.parse().ok()) {
+        tzmon::core::set_hang_limit_s(v);
+    }
     install_panic_hook();
     let t0 = Instant::now();
     let rep = match tzmon::mon::run(&property, &ctx) {
